@@ -270,6 +270,7 @@ func Main(name string, args []string, setup func(fs *flag.FlagSet), h Handler) i
 	tmo := fs.Duration("timeout", 20*time.Second, "per-scenario watchdog")
 	limit := fs.Int("limit", 0, "process at most this many scenarios (0 = all)")
 	stride := fs.Int("stride", 1, "process every stride-th scenario (offset by seed)")
+	perproc := fs.Int("perproc", 0, "child: exit (code 5) after this many scenarios, the parent starts a fresh process for the rest (0 = never)")
 	if setup != nil {
 		setup(fs)
 	}
@@ -277,12 +278,12 @@ func Main(name string, args []string, setup func(fs *flag.FlagSet), h Handler) i
 		return 2
 	}
 	if *shard != "" {
-		return child(*in, *outp, *shard, *from, *prog, *tmo, *limit, *stride, h)
+		return child(*in, *outp, *shard, *from, *prog, *tmo, *limit, *stride, *perproc, h)
 	}
 	return parent(name, args, *in, *outp, *jobs)
 }
 
-func child(in, outp, shard string, from int, prog string, tmo time.Duration, limit, stride int, h Handler) int {
+func child(in, outp, shard string, from int, prog string, tmo time.Duration, limit, stride, perproc int, h Handler) int {
 	var si, sn int
 	fmt.Sscanf(shard, "%d/%d", &si, &sn)
 	f, err := os.Open(in)
@@ -381,6 +382,12 @@ func child(in, outp, shard string, from int, prog string, tmo time.Duration, lim
 		if done%1 == 0 { // (after every scenario: a worker that dies loses nothing)
 			out.summary()
 		}
+		if perproc > 0 && done >= perproc {
+			// the rest of the shard runs in fresh processes (process-wide state back to its initial value)
+			out.w.Flush()
+			of.Sync()
+			return 5
+		}
 	}
 	out.summary()
 	return 0
@@ -411,8 +418,9 @@ func parent(name string, args []string, in, outp string, jobs int) int {
 			o := fmt.Sprintf("%s/out.%d", tmp, i)
 			p := fmt.Sprintf("%s/prog.%d", tmp, i)
 			from := 0
+			recycled := 0
 			for restarts := 0; ; restarts++ {
-				if restarts > 2000 {
+				if restarts > 2000+recycled {
 					fail[i] = "too many worker restarts"
 					return
 				}
@@ -439,6 +447,11 @@ func parent(name string, args []string, in, outp string, jobs int) int {
 				code := -1
 				if ee, ok := err.(*exec.ExitError); ok {
 					code = ee.ExitCode()
+				}
+				if code == 5 { // -perproc: a fresh process for the next scenarios
+					recycled++
+					from = last + 1
+					continue
 				}
 				if code != 3 { // 3 = watchdog already wrote its verdict
 					se := stderr.String()
